@@ -590,7 +590,14 @@ func (r *runner) asyncCheck(at int, op *Op, viaDao bool, mid func() error) error
 			return err
 		}
 	}
-	r.tr("%s at %d %s cancel=%d -> %s", what, at, fmtQ(q), op.Stop, fmtKVs(got))
+	shown := got
+	if cancelled && len(shown) > op.Stop {
+		// what arrives after the cancellation depends on the scheduler (the producer may have one more item in flight):
+		// it is checked below (a prefix of the expected list) but it is not part of the answer the backends are
+		// compared on (tridiff compares traces)
+		shown = shown[:op.Stop]
+	}
+	r.tr("%s at %d %s cancel=%d -> %s", what, at, fmtQ(q), op.Stop, fmtKVs(shown))
 	if cancelled {
 		// after cancellation the producer may or may not deliver further items: whatever arrived must be a
 		// prefix of the expected list that contains at least the items received before the cancel
